@@ -2,13 +2,13 @@
   driver_mux (property C12): the Lean side of harness/cmd/harness-mux. One line out per line in:
 
     # ...                                             -> skip
-    mux scenario <transport> <seed> <stopmid> <clients> [shared=<r>]
+    mux scenario <transport> <seed> <stopmid> <clients> [shared=<r>] [buf=<n>]
         -> expect mode=<exact|pref|subseq> conns=<C> msgs=<total> holders=<h> nconn=<h|any> nconnstop=0
                   stopms<=2000 afterstop=0 grem=0 g1<=g0 rebind=1 race=0 [shared=<r>] model=<delivered>/<verdict of the spec on the model's run>
         the canonical summary of what MUST hold in that scenario, plus the model (Model/Mux.lean) run under the
         fair round-robin schedule and judged by the same predicate
     mux facts
-        -> ok accesses=<n> from-roots=<n> guarded=<n> owner-reads=<n> unguarded=<file:line:unit:field:kind,...> roots=<n>
+        -> ok accesses=<n> from-roots=<n> guarded=<n> owner-reads=<n> unguarded=<file:line:unit:field:kind,...> roots=<n> deadline-calls=<n>
         summary of Generated/LocksCollector.lean (what the lock-discipline theorems speak about)
     chk mux scenario <...> | obs order=<c:s,c:s,...|-> bad=<n> nconn=<n> nconnstop=<n> stopms=<n> afterstop=<n>
                                  g0=<n> g1=<n> grem=<n> rebind=<0|1> ownsock=<0|1> race=<0|1> [further tokens ignored]
@@ -18,10 +18,17 @@
     <stopmid>   - | <k>          Stop() is called once k messages have been delivered
     <clients>   comma-separated <n><b>: n complete messages (sequence numbers 0..n-1, 0 = template), then
                 b = c (close) | a (half a message, then close) | i (stay connected, silent) | h (half a message, stay connected)
+                or <n>w<ms> (1 <= ms <= 30000): a slow session - n complete messages with an idle pause of <ms> milliseconds
+                after the first max(1, n/2) of them, then close. The model has no clock: what is demanded is what is
+                demanded of an ordinary closing client `<n>c` (the collector arms no deadline, Props/C12
+                tie_collector_arms_no_deadline).
                 client i (0-based) is connection / observation domain i+1
     shared=<r>  r >= 1: all clients export in observation domain 1 / template 256 and re-send the template as every
                 r-th message; client i is still connection i+1 (the harness attributes deliveries by the client number
                 the messages carry). The expectation is the same as without it.
+    buf=<n>     n in {0, 512, 1024, 65535} (udp: 65535 only): CollectorInput.MaxBufferSize of the collector under test. It
+                sizes the UDP receive buffer and nothing else; accepted and IGNORED here - over TCP/TLS what must be
+                delivered does not depend on it. The two options may come in either order, each at most once.
 
   Core-only imports.
 -/
@@ -37,6 +44,15 @@ def splitBar (a : List String) : List String × List String :=
 
 def parseClient (t : String) : Option Client :=
   if t.length < 2 then none else
+  if t.contains 'w' then
+    -- <n>w<ms>: a slow session is an ordinary closing client
+    match t.splitOn "w" with
+    | [n, ms] => do
+      let n ← n.toNat?
+      let ms ← ms.toNat?
+      if 1 ≤ ms ∧ ms ≤ 30000 then some ⟨n, .close⟩ else none
+    | _ => none
+  else
   let b := (t.drop (t.length - 1)).toString
   match (t.take (t.length - 1)).toNat? with
   | none => none
@@ -55,9 +71,22 @@ def parseShared (t : String) : Option Nat :=
     | none => none
   else none
 
+/-- `buf=<n>`: accepted (the values the harness accepts; over udp the default only), carries no meaning here -/
+def isBufOption (transport t : String) : Bool :=
+  t.startsWith "buf=" &&
+    (match (t.drop 4).toNat? with
+     | some n => (n == 0 || n == 512 || n == 1024 || n == 65535) && (transport != "udp" || n == 65535)
+     | none => false)
+
 def parseScenario (a : List String) : Option Scenario :=
   match a with
-  | [t, seed, sm, cl, sh] => do
+  | [t, seed, sm, cl, o1, o2] =>
+    -- two options: one is buf=, the other shared=
+    if isBufOption t o2 && !o1.startsWith "buf=" then parseScenario [t, seed, sm, cl, o1]
+    else if isBufOption t o1 && !o2.startsWith "buf=" then parseScenario [t, seed, sm, cl, o2]
+    else none
+  | [t, seed, sm, cl, sh] =>
+    if sh.startsWith "buf=" then (if isBufOption t sh then parseScenario [t, seed, sm, cl] else none) else do
     let r ← parseShared sh
     let sc ← parseScenario [t, seed, sm, cl]
     if sc.clients.any (fun c => c.n > 65535) then none else
@@ -133,7 +162,8 @@ def opFacts : String :=
   let o := fr.filter (fun a => !Locks.guarded a && Locks.ownerRead a)
   let u := Locks.unguarded.map Locks.showSite
   s!"ok accesses={A.length} from-roots={fr.length} guarded={g.length} owner-reads={o.length} " ++
-  s!"unguarded={if u.isEmpty then "-" else ",".intercalate u} roots={Generated.LocksCollector.roots.length}"
+  s!"unguarded={if u.isEmpty then "-" else ",".intercalate u} roots={Generated.LocksCollector.roots.length} " ++
+  s!"deadline-calls={Generated.LocksCollector.deadlineCalls.length}"
 
 def chkScenario (a : List String) : String :=
   let (op, obs) := splitBar a
